@@ -13,7 +13,20 @@ where
     if data.len() < 8 {
         return;
     }
-    let rng = TestRng::from_seed(RngAlgorithm::PassThrough, data);
+    // rand's uniform sampling rejects some values and would spin forever on the zeros that the
+    // pass-through RNG yields once the input is used up: append a deterministic pseudo-random tail
+    let mut buf = data.to_vec();
+    let mut x: u64 = 0x9E37_79B9_7F4A_7C15 ^ (data.len() as u64);
+    for b in data.iter().take(64) {
+        x = (x ^ *b as u64).wrapping_mul(0x1000_0000_01B3);
+    }
+    for _ in 0..4096 {
+        x ^= x << 13;
+        x ^= x >> 7;
+        x ^= x << 17;
+        buf.extend_from_slice(&x.to_le_bytes());
+    }
+    let rng = TestRng::from_seed(RngAlgorithm::PassThrough, &buf);
     let mut runner = TestRunner::new_with_rng(Config::default(), rng);
     let tree = match strategy.new_tree(&mut runner) {
         Ok(t) => t,
